@@ -6,11 +6,13 @@ fn unnest(path: &expression::Query, ctx: &mut Context) -> Resolved {
 
     match path.target() {
         expression::Target::External(prefix) => {
+            // A target that cannot be read behaves like one without a value.
             let root = ctx
                 .target()
                 .target_get(&OwnedTargetPath::root(*prefix))
-                .expect("must never fail")
-                .expect("always a value");
+                .ok()
+                .flatten()
+                .unwrap_or(&Value::Null);
             unnest_root(root, lookup_buf)
         }
         expression::Target::Internal(v) => {
